@@ -74,7 +74,8 @@ def visualElements (doc : Xml) (names : List String) : List Xml :=
       | none => false
 
 /-- `attrib`: the value of the element's own attribute entry with that key — `elementAttributes` is a child of the
-element and the entries are its children (entries nested inside a value are not looked at; fix F19) -/
+element and the entries are its children (entries nested inside a value are not looked at; fix F19); the value is the
+entry's last element, unless the key is the only element of the entry: a key is not its own value (fix F21) -/
 def attrib (node : Xml) (label : String) : Option Xml :=
   match node.children.find? (fun d => d.tag == "elementAttributes") with
   | none => none
@@ -85,7 +86,7 @@ def attrib (node : Xml) (label : String) : Option Xml :=
       | none => false
       | some s => s.tag == "string" && s.text? == some label) with
     | none => none
-    | some entry => entry.lastElemChild
+    | some entry => if (entry.children.filter Xml.isElem).length ≤ 1 then none else entry.lastElemChild
 
 def allDigits (s : List Char) : Bool := !s.isEmpty && s.all (fun c => '0'.toNat ≤ c.toNat && c.toNat ≤ '9'.toNat)
 
